@@ -49,6 +49,12 @@ func aIs(n string, v ...int64) *onnx.AttributeProto {
 func aFs(n string, v ...float32) *onnx.AttributeProto {
 	return &onnx.AttributeProto{Name: n, Floats: v, Type: onnx.AttributeProto_FLOATS}
 }
+func aS(n string, v string) *onnx.AttributeProto {
+	return &onnx.AttributeProto{Name: n, S: []byte(v), Type: onnx.AttributeProto_STRING}
+}
+func aF(n string, v float32) *onnx.AttributeProto {
+	return &onnx.AttributeProto{Name: n, F: v, Type: onnx.AttributeProto_FLOAT}
+}
 func aT(n string, t *onnx.TensorProto) *onnx.AttributeProto {
 	return &onnx.AttributeProto{Name: n, T: t, Type: onnx.AttributeProto_TENSOR}
 }
@@ -85,12 +91,16 @@ func fixtures() map[string][]fixture {
 		"ConstantOfShape": {{inputs: func() []tensor.Tensor { return []tensor.Tensor{fxI64(2, 3)} }}},
 		"Conv": {{inputs: func() []tensor.Tensor { return []tensor.Tensor{fxF32(1, 2, 4, 4), fxF32(3, 2, 2, 2), fxF32(3)} }},
 			{attrs: []*onnx.AttributeProto{aIs("pads", 1, 1, 1, 1), aIs("strides", 2, 2)}, inputs: func() []tensor.Tensor { return []tensor.Tensor{fxF32(1, 1, 4, 4), fxF32(1, 1, 2, 2)} }},
-			{inputs: func() []tensor.Tensor { return []tensor.Tensor{fxF32(1, 2, 5), fxF32(3, 2, 2), fxF32(3)} }}},
+			{inputs: func() []tensor.Tensor { return []tensor.Tensor{fxF32(1, 2, 5), fxF32(3, 2, 2), fxF32(3)} }},
+			{attrs: []*onnx.AttributeProto{aIs("dilations", 2, 2)}, inputs: func() []tensor.Tensor { return []tensor.Tensor{fxF32(1, 1, 5, 5), fxF32(2, 1, 2, 2)} }},
+			{attrs: []*onnx.AttributeProto{aS("auto_pad", "SAME_UPPER"), aIs("dilations", 2)}, inputs: func() []tensor.Tensor { return []tensor.Tensor{fxF32(1, 2, 6), fxF32(1, 2, 2), fxF32(1)} }}},
 		"Expand":  {{inputs: func() []tensor.Tensor { return []tensor.Tensor{fxF32(3, 1), fxI64(3, 4)} }}, {inputs: func() []tensor.Tensor { return []tensor.Tensor{fxF32(3, 4), fxI64(3, 4)} }}},
 		"Flatten": un(fxF32),
 		"Gather":  {{attrs: []*onnx.AttributeProto{aI("axis", 1)}, inputs: func() []tensor.Tensor { return []tensor.Tensor{fxF32(2, 3), fxI64(2, -1)} }}},
 		"Gemm": {{attrs: []*onnx.AttributeProto{aI("transB", 1)}, inputs: func() []tensor.Tensor { return []tensor.Tensor{fxF32(2, 3), fxF32(4, 3), fxF32(4)} }},
-			{attrs: []*onnx.AttributeProto{aI("transA", 1)}, inputs: func() []tensor.Tensor { return []tensor.Tensor{fxF32(3, 2), fxF32(3, 4)} }}},
+			{attrs: []*onnx.AttributeProto{aI("transA", 1)}, inputs: func() []tensor.Tensor { return []tensor.Tensor{fxF32(3, 2), fxF32(3, 4)} }},
+			{attrs: []*onnx.AttributeProto{aF("alpha", 0.5), aF("beta", 0.25)}, inputs: func() []tensor.Tensor { return []tensor.Tensor{fxF32(2, 3), fxF32(3, 4), fxF32(2, 4)} }},
+			{attrs: []*onnx.AttributeProto{aF("beta", 2)}, inputs: func() []tensor.Tensor { return []tensor.Tensor{fxF32(1, 3), fxF32(3, 4), fxF32(1, 4)} }}},
 		"GRU": {{attrs: []*onnx.AttributeProto{aI("hidden_size", 2)}, outputs: []string{"Y", "Y_h"}, inputs: func() []tensor.Tensor {
 			return []tensor.Tensor{fxF32(2, 2, 3), fxF32(1, 6, 3), fxF32(1, 6, 2), fxF32(1, 12), nil, fxF32(1, 2, 2)}
 		}}},
@@ -101,7 +111,9 @@ func fixtures() map[string][]fixture {
 			return []tensor.Tensor{fxF32(2, 2, 3), fxF32(1, 8, 3), fxF32(1, 8, 2), fxF32(1, 16), nil, fxF32(1, 2, 2), fxF32(1, 2, 2), fxF32(1, 6)}
 		}}},
 		"LinearRegressor": {{attrs: []*onnx.AttributeProto{aFs("coefficients", 1, 2, 3, 4, 5, 6), aFs("intercepts", 1, 2), aI("targets", 2)}, inputs: func() []tensor.Tensor { return []tensor.Tensor{fxF32(2, 3)} }}},
-		"Scaler":          {{attrs: []*onnx.AttributeProto{aFs("offset", 1, 2, 3), aFs("scale", 2, 2, 2)}, inputs: func() []tensor.Tensor { return []tensor.Tensor{fxF32(2, 3)} }}},
+		"Scaler": {{attrs: []*onnx.AttributeProto{aFs("offset", 1, 2, 3), aFs("scale", 2, 2, 2)}, inputs: func() []tensor.Tensor { return []tensor.Tensor{fxF32(2, 3)} }},
+			{attrs: []*onnx.AttributeProto{aFs("offset", 1, 2, 3), aFs("scale", 2, 3, 4)}, inputs: func() []tensor.Tensor { return []tensor.Tensor{fxF32(3)} }},
+			{attrs: []*onnx.AttributeProto{aFs("offset", 1, 2, 3), aFs("scale", 2, 3, 4)}, inputs: func() []tensor.Tensor { return []tensor.Tensor{fxF32(1, 3)} }}},
 		"MatMul": {{inputs: func() []tensor.Tensor { return []tensor.Tensor{fxF32(2, 3), fxF32(3, 2)} }}, {inputs: func() []tensor.Tensor { return []tensor.Tensor{fxF32(2, 2, 3), fxF32(3)} }},
 			{inputs: func() []tensor.Tensor { return []tensor.Tensor{fxF32(3), fxF32(2, 3, 2)} }}},
 		"Reshape": {{inputs: func() []tensor.Tensor { return []tensor.Tensor{fxF32(2, 3), fxI64(3, -1)} }}},
